@@ -138,7 +138,7 @@ def configs(tier, seed):
                     if tier == "thorough" and brackets == 1:
                         W = 3
                     p1 = rotate(all_perms(T), seed * 5 + len(out))
-                    n1 = 2 if tier == "quick" else (6 if brackets == 1 else 3)
+                    n1 = 2 if tier == "quick" else (4 if brackets == 1 else 2)
                     for i, perm1 in enumerate(p1[:n1]):
                         perm2 = tuple(reversed(range(T))) if i % 2 else tuple(range(T))
                         perms = {str(levels[0]): perm1}
@@ -149,7 +149,7 @@ def configs(tier, seed):
                                    scratch=(i % 2 == 1), cost_variant=i)
                         cfg["zero_rank"] = [T - 1, None, 1][(i + len(out)) % 3]
                         cfg["id0"] = 8 if len(out) % 2 else 0
-                        cfg["max_states"] = 3000 if tier == "quick" else 40000
+                        cfg["max_states"] = 3000 if tier == "quick" else 10000
                         out.append(cfg)
     return out
 
